@@ -313,6 +313,7 @@ func main() {
 	out := flag.String("out", "", "results file (JSON lines); default stdout")
 	dump := flag.String("dump-smt", "", "write all solver input to this file")
 	flag.Parse()
+	RepoRoot = strings.TrimRight(*repo, "/")
 	TT = NewTermTable()
 	tTrue, tFalse = mkBool(true), mkBool(false)
 	if *dump != "" {
